@@ -1,0 +1,31 @@
+//go:build verif
+
+package readline
+
+import (
+	"github.com/reeflective/readline/internal/core"
+	"github.com/reeflective/readline/internal/macro"
+)
+
+// VerifLoopTop runs what the Readline loop runs for the macro recorder at the
+// top of every iteration: RecordKeys, then FlushUsed. Verification builds only.
+func (rl *Shell) VerifLoopTop() {
+	macro.RecordKeys(rl.Macros)
+	core.FlushUsed(rl.Keys)
+}
+
+// VerifDrainKeys pops every key waiting in the key stack (bytes read and keys
+// fed by macros), in the order the dispatcher would see them.
+// Verification builds only.
+func (rl *Shell) VerifDrainKeys() []byte {
+	var out []byte
+
+	for {
+		key, empty := core.PopKey(rl.Keys)
+		if empty {
+			return out
+		}
+
+		out = append(out, key)
+	}
+}
